@@ -186,6 +186,24 @@ def find_dirs(ctx):
             ctx.ob(R, 'make_find_dirs|include+makeify', ok, h.node,
                    'Make does not include the depfile (with empty rules '
                    'for deleted directories)')
+    # the lazy re-check walks the tree again: a change in the set of walked
+    # directories must either force a regeneration or be written to the
+    # depfile before the run is aborted -- otherwise a directory created
+    # since the last run is never watched
+    rw = [n for n in ast.walk(fcc.node) if isinstance(n, ast.Assign) and
+          unparse(n.targets[0]) == 'regenerate' and isinstance(
+              n.value, ast.BoolOp)]
+    in_decision = any('seen_dirs' in unparse(n.value) or 'find_dirs' in
+                      unparse(n.value) for n in rw)
+    raises = [n for n in ast.walk(fcc.node) if isinstance(n, ast.Raise)]
+    rewrites = [c for c in Q.calls(fcc.node) if unparse(c.func) ==
+                'write_depfile']
+    ctx.ob(R, 'find_check_cache|new-directories-tracked-when-skipping',
+           in_decision or bool(rewrites), fcc.node,
+           'the directories found by the lazy re-check are neither compared '
+           'in the skip decision nor written to the depfile before the run '
+           'is aborted: a directory created since the last regeneration is '
+           'never watched')
     wdf = repo.func(FIND + 'write_depfile')
     loops = [n for n in walk_no_nested(wdf.node) if isinstance(n, ast.For)
              and unparse(n.iter) == 'seen_dirs']
@@ -202,7 +220,7 @@ def _under_if(node, test_text):
     return False
 
 
-def cache_replay(ctx):
+def cache_replay(ctx, check_order=False):
     R = 'CACHE-REPLAY'
     ctx.rule(R, 'the cache-hit path of find_from_filter replays every '
              'field of a FindCacheEntry that the miss path records: found '
@@ -267,6 +285,25 @@ def cache_replay(ctx):
                                  for c in hit), hit_block,
                'the cache-hit path does not register {} entries (through '
                '`{}`) with the caller\'s dist'.format(what, table))
+    # order: the miss path registers found and extra entries interleaved, in
+    # walk order, in ONE loop; the registration order is the order of the
+    # dist file list. The hit path reproduces it only if it also registers
+    # from one ordered sequence.
+    hit_loops = [n for n in ast.walk(hit_block) if isinstance(
+        n, (ast.For, ast.ListComp, ast.GeneratorExp)) and (
+            reg_calls(n, 'types') or reg_calls(n, 'extra_types'))]
+    outer = [n for n in hit_loops if not any(
+        m is not n and any(x is n for x in ast.walk(m)) for m in hit_loops)]
+    single = len(outer) == 1 and reg_calls(outer[0], 'types') and \
+        reg_calls(outer[0], 'extra_types')
+    if check_order:
+        ctx.ob(R, 'find_from_filter|hit-path-keeps-registration-order',
+           bool(single), hit_block,
+           'the cache keeps found and extra entries in two separate lists '
+           'and the hit path registers them in two passes: after a lazy '
+           'regeneration the sources (dist file list) are ordered '
+           'differently from a fresh configure, which registers them '
+           'interleaved in walk order')
     # the miss path records both lists in the cache
     adds = [c for c in Q.calls(f.node) if unparse(c.func) ==
             "context.build['find_cache'].add"]
